@@ -12,6 +12,7 @@ import (
 
 	"github.com/google/badwolf/bql/lexer"
 	"github.com/google/badwolf/bql/table"
+	"github.com/google/badwolf/storage/memory"
 	"github.com/google/badwolf/triple"
 	"github.com/google/badwolf/triple/literal"
 	"github.com/google/badwolf/triple/node"
@@ -226,6 +227,26 @@ func rerun(path string) {
 			ts = append(ts, t)
 		}
 		st := newGraph(ctx, "?g", ts)
+		if len(c.Graphs) > 0 {
+			st = memory.NewStore()
+			for name, lines := range c.Graphs {
+				g, err := st.NewGraph(ctx, name)
+				if err != nil {
+					panic(err)
+				}
+				var gts []*triple.Triple
+				for _, line := range lines {
+					t, err := triple.Parse(line, literal.DefaultBuilder())
+					if err != nil {
+						panic(err)
+					}
+					gts = append(gts, t)
+				}
+				if err := g.AddTriples(ctx, gts); err != nil {
+					panic(err)
+				}
+			}
+		}
 		c.Base, _ = runQuery(ctx, st, c.BaseQ)
 		res, stm := runQuery(ctx, st, c.Q)
 		c.Res = res
